@@ -187,9 +187,12 @@ def _from_notes(pid):
             "text": bullet("level_claimed.text") or bullet("level_claimed"), "note": bullet("level_note")}
 
 
-FROM_NOTES = ["C05", "C09", "C10", "C12", "C13", "C15", "C16", "C17", "C19", "C20"]
-for _p in FROM_NOTES:
+# every property whose report has a parseable "## Claim" section takes its claim from there (the report is updated together
+# with the check); the dictionary above is the fallback for properties without a report
+for _p in ["C%02d" % _i for _i in range(1, 21)]:
     try:
-        CHECKS[_p] = _from_notes(_p)
-    except Exception as _e:      # a report that cannot be parsed is not claimed
+        _c = _from_notes(_p)
+        if _c["text"] and _c["note"]:
+            CHECKS[_p] = _c
+    except Exception as _e:      # no report / a report that cannot be parsed: keep the fallback
         pass
